@@ -69,6 +69,48 @@ def _tested_negative(fn, site):
     return None
 
 
+def _worlds(f, S, is_unlink, is_errmark, reformat):
+    """Path-sensitive consequences of the call at site S failing (-1) or succeeding (0): constant propagation carries the result through
+    conditions and temporaries alike.  Returns (fail_exits, succ_bad): fail_exits = [(unlinked, errored)] for every exit reached after
+    a failing evaluation of S; succ_bad = a successful evaluation is followed by an unlink of the same name before it is re-formatted."""
+    cfg = f.cfg
+    # result carriers: locals that receive the value of close()/renameat() (directly or in a chain of plain copies)
+    tracked = set()
+    for b, i, x, line in cfg.all_elems():
+        for l, kind, n in writes(x):
+            rhs = n.get("init") if kind == "decl" else (n.get("r") if n.get("k") == "bin" and n["op"] == "=" else None)
+            if rhs is None:
+                continue
+            if any(c.get("fn") in ("close", "renameat") for c in calls(cfg.resolve(rhs))):
+                tracked.add(lv(l))
+    def is_site(x):
+        return isinstance(x, dict) and x.get("k") == "call" and x.get("fn") == S.node.get("fn") and x.get("line") == S.node.get("line")
+    out = {}
+    for world in (-1, 0):
+        def call_eval(x, store, _w=world):
+            return _w if is_site(x) else None
+
+        def effect(b, i, x, store, _w=world):
+            upd = {}
+            if is_site(x):
+                upd.update({"$done": 1, "$unl": 0, "$err": 0, "$armed": 1})
+            if is_unlink(x):
+                upd["$unl"] = 1
+                if store.get("$armed") and _w == 0:
+                    upd["$bad"] = 1
+            if is_errmark(x):
+                upd["$err"] = 1
+            if reformat(x):
+                upd["$armed"] = 0
+            return upd or None
+        w = AbsWalk(f, tracked, init={}, effect=effect, call_eval=call_eval, max_states=400000)
+        w.run(start_block=S.b)
+        out[world] = [st for st in w.exit_stores if st.get("$done")]
+    fail_exits = [(bool(st.get("$unl")), bool(st.get("$err"))) for st in out[-1]]
+    succ_bad = any(st.get("$bad") for st in out[0])
+    return fail_exits, succ_bad
+
+
 def r06_1(prog, rep):
     rid = "R06.1"
     fl = _daemon_fns(prog)
@@ -120,23 +162,11 @@ def r06_1(prog, rep):
                          + (" (writer call between close and rename)" if nonclose else ""))
                 continue
             rep.ok(rid, pre + "/close-before", f.loc(R.line), "every path to the rename passes close(%s)" % ", ".join(sorted({lv(c.node["a"][0]) for c in closes})))
-            # rename result tested
-            rs = _tested_negative(f, R)
-            if rs is None:
-                rep.fail(rid, pre + "/rename-checked", f.loc(R.line), "result of renameat is not tested (< 0) by the branch that decides success")
-            else:
-                rep.ok(rid, pre + "/rename-checked", f.loc(R.line), "renameat(...) < 0 decides the failure edge")
-            fail_edges = []
-            if rs is not None:
-                fail_edges.append(("rename", R, rs))
+            # results of close and rename decide (checked below through their failure worlds)
+            sites_to_fail = [("rename", R)]
             for C in closes:
                 FD = lv(C.node["a"][0])
-                cs = _tested_negative(f, C)
-                if cs is None:
-                    rep.fail(rid, "%s/close-checked" % f.name, f.loc(C.line), "result of close(%s) is not tested before the rename" % FD)
-                else:
-                    rep.ok(rid, "%s/close-checked" % f.name, f.loc(C.line), "close(%s) < 0 decides the failure edge" % FD)
-                    fail_edges.append(("close", C, cs))
+                sites_to_fail.append(("close", C))
                 # 4. fini before close, no writer in between
                 finis = []
 
@@ -202,34 +232,37 @@ def r06_1(prog, rep):
                         if v is not None and v < 0:
                             return True
                 return False
-            for what, S, si in fail_edges:
-                st = edge_start(cfg, S.b, si)
+            def reformat(x):
+                for c in calls(x):
+                    if c.get("fn") in ("snprintf",) and c["a"] and lv(c["a"][0]) == X:
+                        return True
+                return False
+            for what, S in sites_to_fail:
+                fail_exits, succ_bad = _worlds(f, S, is_unlink, is_errmark, reformat)
+                kc = (pre + "/rename-checked") if what == "rename" else ("%s/close-checked" % f.name)
                 k1 = "%s/%s-failure/unlink" % (f.name, what)
                 k2 = "%s/%s-failure/error-result" % (f.name, what)
-                if must_pass_to_exit(cfg, st, is_unlink):
+                if not fail_exits:
+                    rep.fail(rid, kc, f.loc(S.line), "no path evaluates %s() and reaches the exit (cannot follow its result)" % S.node["fn"])
+                    continue
+                if any(not u and not e for u, e in fail_exits):
+                    rep.fail(rid, kc, f.loc(S.line), "a failing %s() can reach the exit exactly like a successful one: its result does not decide "
+                             "between success and failure%s" % (S.node["fn"], " before the rename" if what == "close" else ""))
+                else:
+                    rep.ok(rid, kc, f.loc(S.line), "a negative result of %s() never reaches the exit on the success path" % S.node["fn"])
+                if all(u for u, e in fail_exits):
                     rep.ok(rid, k1, f.loc(S.line), "failure of %s passes unlinkat(qdirfd, %s, 0)" % (what, X))
                 else:
-                    rep.fail(rid, k1, f.loc(S.line), "a path from the failure edge of %s reaches the exit without unlinkat(qdirfd, %s, 0)" % (what, X))
-                if must_pass_to_exit(cfg, st, is_errmark):
+                    rep.fail(rid, k1, f.loc(S.line), "a path on which %s has failed reaches the exit without unlinkat(qdirfd, %s, 0)" % (what, X))
+                if all(e for u, e in fail_exits):
                     rep.ok(rid, k2, f.loc(S.line), "failure of %s reaches a negative result" % what)
                 else:
-                    rep.fail(rid, k2, f.loc(S.line), "a path from the failure edge of %s returns without a negative result" % what)
-            # success edge must not unlink X before X is reformatted
-            if rs is not None:
-                st = edge_start(cfg, R.b, 1 - rs)
-
-                def v(b, i, x):
-                    if is_unlink(x):
-                        return "hit"
-                    for c in calls(x):
-                        if c.get("fn") in ("snprintf",) and c["a"] and lv(c["a"][0]) == X:
-                            return "stop"
-                    return None
-                hits, _ = forward_scan(cfg, st, v)
-                if hits:
-                    rep.fail(rid, pre + "/success-keeps-file", f.loc(R.line), "the success edge of the rename reaches unlinkat of the same name")
-                else:
-                    rep.ok(rid, pre + "/success-keeps-file", f.loc(R.line), "success edge never unlinks")
+                    rep.fail(rid, k2, f.loc(S.line), "a path on which %s has failed returns without a negative result" % what)
+                if what == "rename":
+                    if succ_bad:
+                        rep.fail(rid, pre + "/success-keeps-file", f.loc(R.line), "after a successful rename the same name is unlinked")
+                    else:
+                        rep.ok(rid, pre + "/success-keeps-file", f.loc(R.line), "a successful rename is never followed by an unlink of that name")
             # 8. descriptor / uid pairing
             _pairing(prog, rep, rid, f, R, X, closes, fsites)
 
